@@ -296,7 +296,7 @@ theorem cleanupObjects_fdt (I : ObjIface σ) (s : State σ) (stale : Nat → Boo
   · exact removeObjects_fdt I s _
 
 theorem cleanup_all (I : ObjIface σ) (P : FdtRecv σ → Prop) (s s' : State σ) (now : Int)
-    (stale : Nat → Bool) (evs : List Ev)
+    (stale : Stale) (evs : List Ev)
     (hupd : ∀ f f', P f → f.updateExpired now = .ok f' → P f')
     (h : cleanup I s now stale = .ok (s', evs)) (hall : AllFdt P s) :
     AllFdt P s' ∧ s'.cfg = s.cfg := by
@@ -307,7 +307,7 @@ theorem cleanup_all (I : ObjIface σ) (P : FdtRecv σ → Prop) (s s' : State σ
   · rename_i s2 hc
     simp only [Except.ok.injEq, Prod.mk.injEq] at h
     obtain ⟨rfl, _⟩ := h
-    have h1 := cleanupObjects_fdt I s stale
+    have h1 := cleanupObjects_fdt I s stale.obj
     unfold cleanupFdt at hc
     split at hc
     · cases hc
